@@ -253,12 +253,17 @@ def n_out(idx, dims):
 class Solver:
     """solver stub: symbolic mode returns fresh unknowns and records (M, RHS) exactly as handed
     over; concrete mode really solves (scipy spsolve) and publishes the solution under the same
-    names, so that obligations stated 'under the hypothesis M x = RHS' can be replayed."""
+    names, so that obligations stated 'under the hypothesis M x = RHS' can be replayed.
+    alias: optional {flat index -> flat index}: the unknown at the key is the SAME symbol as the one
+    at the value (used to eliminate ghost unknowns by their boundary rows, which are then checked
+    as identities by the scenario)."""
 
-    def __init__(self, ctx, prefix='x'):
+    def __init__(self, ctx, prefix='x', alias=None, lift=None):
         self.ctx = ctx
         self.prefix = prefix
         self.calls = 0
+        self.alias = alias or {}
+        self.lift = lift
         self.M = self.RHS = self.x = None
 
     def __call__(self, M, RHS):
@@ -268,7 +273,16 @@ class Solver:
         n = M.shape[0]
         pre = self.prefix if self.calls == 1 else '%s%d' % (self.prefix, self.calls)
         if ctx.sym:
-            self.x = ctx.arr(pre, (n,))
+            if self.lift is not None:
+                self.x = self.lift(n)
+                return self.x
+            x = np.empty(n, dtype=object)
+            for i in range(n):
+                if i not in self.alias:
+                    x[i] = ctx.real('%s_%d' % (pre, i))
+            for i, j in self.alias.items():
+                x[i] = x[j]
+            self.x = x.view(symnp.SymArray)
             return self.x
         from scipy.sparse.linalg import spsolve
         x = np.asarray(spsolve(M, RHS), dtype=float)
@@ -434,3 +448,22 @@ class Geo:
         for idx in itertools.product(*[range(n) for n in self.dims]):
             tot = tot + self.volume(idx)
         return tot
+
+
+def ghost_alias(g, dims, periodic_axes):
+    """{ghost flat index -> interior flat index}: inner neighbour (no-flux) or periodic image"""
+    G = cell_index(dims)
+    out = {}
+    for cc in all_cells(dims):
+        outs = [b for b, (k, n) in enumerate(zip(cc, dims)) if k == 0 or k == int(n) + 1]
+        if len(outs) != 1:
+            continue
+        ax = outs[0]
+        n = int(dims[ax])
+        tgt = list(cc)
+        if ax in periodic_axes:
+            tgt[ax] = n if cc[ax] == 0 else 1
+        else:
+            tgt[ax] = 1 if cc[ax] == 0 else n
+        out[int(G[cc])] = int(G[tuple(tgt)])
+    return out
